@@ -44,11 +44,20 @@ type vpC02Scn struct {
 	Plan        []int
 	R2Body      bool
 	Proto10     bool // R1 is an HTTP/1.0 request with Connection: keep-alive
+	Method      string // R1's method: POST (default), or GET / HEAD / PUT carrying the same framed body
+	GetOnly     bool   // Server.GetOnly (only drawn together with GET / HEAD)
+}
+
+func (s vpC02Scn) r1() string {
+	if s.Method == "" {
+		return "POST"
+	}
+	return s.Method
 }
 
 func (s vpC02Scn) String() string {
-	return fmt.Sprintf("stream=%v rmu=%v maxbody=%d chunked=%v pad=%d tail=%d chunks=%v handler=%s readn=%d expect=%q continueH=%q expectH=%q code=%d garbage=%q plan=%v r2body=%v http10=%v",
-		s.Stream, s.RMU, s.MaxBody, s.Chunked, s.Pad, s.Tail, s.ChunkAt, s.Handler, s.ReadN, s.Expect, s.ContinueH, s.ExpectH, s.ExpectCode, s.Garbage, s.Plan, s.R2Body, s.Proto10)
+	return fmt.Sprintf("stream=%v rmu=%v maxbody=%d chunked=%v pad=%d tail=%d chunks=%v handler=%s readn=%d expect=%q continueH=%q expectH=%q code=%d garbage=%q plan=%v r2body=%v http10=%v method=%s getonly=%v",
+		s.Stream, s.RMU, s.MaxBody, s.Chunked, s.Pad, s.Tail, s.ChunkAt, s.Handler, s.ReadN, s.Expect, s.ContinueH, s.ExpectH, s.ExpectCode, s.Garbage, s.Plan, s.R2Body, s.Proto10, s.r1(), s.GetOnly)
 }
 
 type vpC02Result struct {
@@ -73,6 +82,7 @@ func vpC02Run(s vpC02Scn) vpC02Result {
 		StreamRequestBody: s.Stream,
 		ReduceMemoryUsage: s.RMU,
 		MaxRequestBodySize: s.MaxBody,
+		GetOnly:           s.GetOnly,
 		Logger:            vpNopLogger{},
 		Handler: func(ctx *RequestCtx) {
 			d := string(ctx.Method()) + " " + string(ctx.RequestURI())
@@ -126,9 +136,9 @@ func vpC02Run(s vpC02Scn) vpC02Result {
 	}
 	var head bytes.Buffer
 	if s.Proto10 {
-		head.WriteString("POST /r1 HTTP/1.0\r\nHost: h\r\nConnection: keep-alive\r\n")
+		head.WriteString(s.r1() + " /r1 HTTP/1.0\r\nHost: h\r\nConnection: keep-alive\r\n")
 	} else {
-		head.WriteString("POST /r1 HTTP/1.1\r\nHost: h\r\n")
+		head.WriteString(s.r1() + " /r1 HTTP/1.1\r\nHost: h\r\n")
 	}
 	var wire []byte
 	if s.Chunked {
@@ -158,6 +168,9 @@ func vpC02Run(s vpC02Scn) vpC02Result {
 	r2 := "GET /r2 HTTP/1.1\r\nHost: h\r\n\r\n"
 	if s.R2Body {
 		r2 = "POST /r2 HTTP/1.1\r\nHost: h\r\nContent-Length: 7\r\n\r\nr2-body"
+	}
+	if s.R2Body && s.GetOnly {
+		r2 = "GET /r2 HTTP/1.1\r\nHost: h\r\nContent-Length: 7\r\n\r\nr2-body"
 	}
 	w := vpNewWire(nil, s.Plan, false)
 	done := make(chan struct{})
@@ -205,10 +218,11 @@ func vpC02Oracle(s vpC02Scn, r vpC02Result) string {
 		return "server neither closed nor went idle within 20s"
 	}
 	r2 := "GET /r2"
-	if s.R2Body {
+	if s.R2Body && !s.GetOnly {
 		r2 = "POST /r2"
 	}
-	allowed := [][]string{{}, {"POST /r1"}, {"POST /r1", r2}, {r2}}
+	r1 := s.r1() + " /r1"
+	allowed := [][]string{{}, {r1}, {r1, r2}, {r2}}
 	ok := false
 	for _, a := range allowed {
 		if strings.Join(a, "|") == strings.Join(r.Disp, "|") {
@@ -216,7 +230,7 @@ func vpC02Oracle(s vpC02Scn, r vpC02Result) string {
 		}
 	}
 	if !ok {
-		return fmt.Sprintf("dispatch log %q is not a sub-sequence of the requests sent [POST /r1, %s]: body bytes were parsed as a request", r.Disp, r2)
+		return fmt.Sprintf("dispatch log %q is not a sub-sequence of the requests sent [%s, %s]: body bytes were parsed as a request", r.Disp, r1, r2)
 	}
 	r2Dispatched := len(r.Disp) > 0 && r.Disp[len(r.Disp)-1] == r2
 	if r2Dispatched && s.R2Body && string(r.R2Body) != "r2-body" {
@@ -236,7 +250,11 @@ func vpC02Oracle(s vpC02Scn, r vpC02Result) string {
 		if _, err := br.Peek(1); err != nil {
 			break
 		}
-		resp, err := http.ReadResponse(br, &http.Request{Method: "POST"})
+		rm := "POST"
+		if s.r1() == "HEAD" && finals == 0 && len(r.Disp) > 0 && r.Disp[0] == r1 {
+			rm = "HEAD" // the first final response answers the dispatched HEAD request: no body follows its head
+		}
+		resp, err := http.ReadResponse(br, &http.Request{Method: rm})
 		if err != nil {
 			return fmt.Sprintf("server output does not parse as responses: %v (%s)", err, vpQuote(r.Out, 300))
 		}
@@ -332,6 +350,11 @@ func vpC02Gen(t *rapid.T) vpC02Scn {
 	}
 	s.R2Body = rapid.Bool().Draw(t, "r2body")
 	s.Proto10 = rapid.IntRange(0, 4).Draw(t, "http10") == 0
+	// a body is framed by Content-Length / Transfer-Encoding whatever the method is
+	s.Method = rapid.SampledFrom([]string{"POST", "POST", "POST", "PUT", "GET", "GET", "HEAD"}).Draw(t, "method")
+	if s.Method == "GET" || s.Method == "HEAD" {
+		s.GetOnly = rapid.Bool().Draw(t, "getonly")
+	}
 	s.Plan = vpGenSplit(t, total, nil)
 	return s
 }
